@@ -134,6 +134,7 @@ type vResult struct {
 	Notes        []string       `json:"notes"`
 	Exhaustive   bool           `json:"exhaustive"`
 	Done         bool           `json:"done"`
+	ResumeFrom   *int           `json:"resume_from,omitempty"`
 	totalViol    int
 	maxSamples   int
 	maxDistinct  int
@@ -278,7 +279,52 @@ func (r *vResult) flush() {
 	}
 }
 
+// vYield: the child hands over to a fresh process (the race detector's bookkeeping only grows: after some hundred
+// thousand cases a child holds gigabytes). Raised by begin() at the start of a new case, caught by finish(): the
+// result written so far is kept by the driver, which starts the continuation at "resume_from".
+type vYield struct{ from int }
+
+var (
+	vMaxIdx      = -1
+	vMonotonic   = true
+	vBeginCount  int
+	vYieldMB     = vEnvInt("VERIF_YIELD_MB", 3000)
+	vYieldDriver = os.Getenv("VERIF_JOURNAL") != "" // only under the driver, which knows how to continue
+)
+
+func vEnvInt(k string, def int) int {
+	if v, err := strconv.Atoi(os.Getenv(k)); err == nil {
+		return v
+	}
+	return def
+}
+
+func vRSSMB() int {
+	b, err := os.ReadFile("/proc/self/statm")
+	if err != nil {
+		return 0
+	}
+	f := strings.Fields(string(b))
+	if len(f) < 2 {
+		return 0
+	}
+	pages, _ := strconv.Atoi(f[1])
+	return pages * os.Getpagesize() >> 20
+}
+
 func (r *vResult) finish(t *testing.T) {
+	if x := recover(); x != nil {
+		y, ok := x.(vYield)
+		if !ok {
+			panic(x)
+		}
+		r.mu.Lock()
+		r.ResumeFrom = &y.from
+		r.mu.Unlock()
+		r.flush()
+		t.Logf("%s: yielding at case %d (resident memory %d MB)", r.Property, y.from, vRSSMB())
+		return
+	}
 	r.mu.Lock()
 	r.Done = true
 	r.mu.Unlock()
@@ -298,6 +344,16 @@ var vJournalFile *os.File
 var vLastFlush time.Time
 
 func (r *vResult) begin(idx int, desc string, input interface{}) {
+	if idx < vMaxIdx {
+		vMonotonic = false
+	}
+	if idx > vMaxIdx {
+		vMaxIdx = idx
+		vBeginCount++
+		if vYieldDriver && vMonotonic && vYieldMB > 0 && vBeginCount%32 == 0 && vBeginCount > 64 && vRSSMB() > vYieldMB {
+			panic(vYield{idx})
+		}
+	}
 	r.mu.Lock()
 	r.curCase = idx
 	r.mu.Unlock()
